@@ -113,6 +113,17 @@ func H_Build() {
 	c := godi.NewCollection()
 	errs := w.Register(c)
 	vrt.Assume(!addErrs(errs, n))
+	if vrt.Param("rejected", 0) == 1 {
+		// a registration of several descriptors (two aliases, in a group) that is
+		// rejected on its second alias: the caller carries on; nothing of it may
+		// take part in the Build
+		if n > 3 {
+			panic("rejected=1 needs slot 3 free")
+		}
+		rerr := c.AddSingleton(kit.TabC[3][0], godi.As[kit.I0](), godi.As[IX](), godi.Group("g1"))
+		vrt.Assert(rerr != nil, "C08.invalid_registration_accepted", "a registration As an interface the service does not implement was accepted")
+		vrt.Cover("rejected_add")
+	}
 	checkBuild(w, c)
 }
 
